@@ -3,7 +3,7 @@ from common import T_COMMON
 CFG = dict(
     theorems=["stl_length", "stl_roundtrip", "stl_roundtrip_trailing", "stl_count_wraps",
               "stl_reencode_prefix", "stl_reencode", "stl_decode_ok_iff", "stl_decode_short",
-              "chunks_eq_triples", "stl_mesh_roundtrip", "stl_mesh_nopos", "stl_mesh_oob"],
+              "stl_roundtrip_exact", "chunks_eq_triples", "stl_mesh_roundtrip", "stl_mesh_nopos", "stl_mesh_oob"],
     streams=[dict(name="c07", n=dict(quick=250, thorough=6000))],
     trusted=T_COMMON + [
         "encoding/binary (struct layout of stl.Triangle: 12 float32 + uint16, no padding) — observed byte-exact against the model on every run",
